@@ -8,7 +8,7 @@ for id in "$@"; do
   for d in /tmp/mut/$id/_out/m*; do
     [ -f $d/patch.diff ] || continue
     m=$(basename $d)
-    DEMORUN=. /verif/tools/mutant.sh $d $TIER ${REL[$id]} > /tmp/mut/results/$id-$m.log 2>&1
+    DEMORUN=${DEMORUN:-Demo} /verif/tools/mutant.sh $d $TIER ${REL[$id]} > /tmp/mut/results/$id-$m.log 2>&1
     echo "$id-$m: $(grep -E '^== (clean|changed|check)' /tmp/mut/results/$id-$m.log | sed -e 's/== //' -e 's/ VIOLATION lines//' | tr '\n' ';')"
   done
 done
